@@ -379,9 +379,20 @@ func main() {
 		out.Close(extra)
 		os.Exit(0)
 	}
+	// writer-level tier: a scenario whose next command is not executable (the writer under test is somewhere the template
+	// does not expect it) leaves the process in a sane state - the run is wound up (quit, socket closed, held Writes ended)
+	// and the next scenario starts from a fresh writer: only that SCENARIO is lost (recorded as a line the model cannot
+	// answer: a broken tie). A process that does not become quiescent ends the campaign.
+	unconducted := 0
 	wcaseOut := func(c wcase) {
 		if c.cls == "fatal" {
-			bail(c.sop)
+			if strings.Contains(c.sop, "not quiescent") || unconducted >= 100 {
+				bail(c.sop)
+			}
+			unconducted++
+			fmt.Fprintln(os.Stderr, "c07:", c.sop)
+			deferred = append(deferred, schedCase{"harness-fatal " + strings.Join(strings.Fields(c.sop), " "), "fatal", "fatal"})
+			return
 		}
 		out.Case(c.top, "accept", "wtrace", true)
 		deferred = append(deferred, schedCase{c.sop, c.ans, c.cls})
